@@ -454,6 +454,13 @@ def search(ctx, deep):
                 sdocs = [{'p': {'lo': rng.randint(0, 5), 'hi': rng.randint(3, 9), 'mid': rng.randint(0, 9)}, 'q': {'lo': 7, 'hi': 2, 'mid': 5},
                           'l': [rng.randint(0, 2) for _ in range(3)], 'm': [rng.randint(3, 5) for _ in range(3)], 'n': [7, 8, 9]} for _ in range(4)]
                 if rnd == 0:
+                    # path wildcards ([...] and [:]) exist only for MySQL / Oracle: SQLite must refuse them at translation time
+                    for wsrc in ("e.j['l'][:] for e in E", "e.j[...] for e in E"):
+                        st, rows = c29_impl.run_query(json1, wsrc, {})
+                        evals += 1; dist['queries'] += 1; count('wildcard')
+                        if st != 'exc' or 'TranslationError' not in rows:
+                            record('unlisted:wildcard-accepted:%s' % mode, 'C29 wildcard [%s]: %s should be refused with TranslationError on SQLite, got %r' % (mode, wsrc, rows),
+                                   {'mode': mode, 'kind': 'shared', 'docs': [{'l': [1]}], 'arrays': [], 'src': wsrc, 'params': {}, 'want': 'TranslationError'})
                     c29_impl.load_rows(json1, [{'l': [5], 'm': [12]}], [])
                     st, rows = c29_impl.run_query(json1, "e.j['l'][0] for e in E if e.j['l'][0] < e.j['m'][0]", {})
                     evals += 1; dist['queries'] += 1; count('order')
@@ -603,9 +610,11 @@ def replay(ctx, data):
 
 LEVEL_TEXT = ('Machine-checked proof (Coq 8.16.1) over a model of Pony\'s JSON / array query helpers: the path text built by eval_json_path is read back by SQLite\'s _parse_path '
               'as the same keys for all int and str keys without a double quote; _traverse returns a value exactly where Python indexing of the decoded document does; key membership and '
-              'list length after a path; JSON truthiness by the textual NOT IN list equals Python truthiness (float zeros as json.dumps writes them included, since fix 8c0b3e1); array index '
-              'and slice on SQLite equal Python indexing / slicing for every index and bound (since fix 3338ea9); the PostgreSQL array path and jsonb truthiness are right under the documented '
-              'semantics. The remaining deviations (key quoting, len of dict / str, CAST-based ==, TypeError escaping the fallback) are refuted by witnesses and recorded as findings.')
+              'list length after a path; JSON truthiness by the textual NOT IN list equals Python truthiness (float zeros as json.dumps writes them included); array index and slice on '
+              'SQLite equal Python indexing / slicing for every index and bound; the bind-parameter key of a parameterised path determines the path (so sharing parameters between '
+              'several paths of one query is sound); equality of two int items via their texts is exact; the PostgreSQL array path and jsonb truthiness are right under the documented '
+              'semantics. The remaining deviations (key quoting, len of dict / str, CAST-based ==, text ordering of two items, TypeError escaping the fallback) are refuted by witnesses and '
+              'recorded as findings.')
 LEVEL_NOTE = ('Partial: the model is hand-written (tied by vm_compute correspondence with the real functions and index ASTs, and by real queries on SQLite with JSON1 and with the '
               'fallback forced); JSON comparison operators, wildcards, JSON_CONCAT and PostgreSQL JSON functions are not modelled (PostgreSQL only as path text); \\w beyond ASCII is an oracle.')
 TECHNIQUE = 'Coq proofs (decimal print/parse round trip, scanner lemmas, structural induction over paths, seg normal form + lia for slices); vm_compute correspondence; end-to-end differential search on SQLite in two modes'
